@@ -393,6 +393,11 @@ type c15Embedded struct {
 	S     string `json:"s"`
 	Quote string `json:"quote"`
 	Post  string `json:"post"`
+	// PreVars: unquoted pattern text in front of Pre that comes out of
+	// expansions, one variable per element ($c15v0$c15v1...). Together the
+	// values end in an even number of backslashes, so that what they mean
+	// does not depend on the quoted text that follows.
+	PreVars []string `json:"pre_vars,omitempty"`
 }
 
 func checkC15Embedded(c c15Embedded) error {
@@ -400,7 +405,11 @@ func checkC15Embedded(c c15Embedded) error {
 	if !ok {
 		return nil
 	}
-	src := "_ " + c.Pre + q + c.Post
+	src := "_ "
+	for i := range c.PreVars {
+		src += fmt.Sprintf("${c15v%d}", i)
+	}
+	src += c.Pre + q + c.Post
 	cmd, _, err := parser.ParseCommand("c15", src)
 	if err != nil {
 		return nil // this context cannot be written like that
@@ -414,12 +423,15 @@ func checkC15Embedded(c c15Embedded) error {
 		esc.WriteByte('\\')
 		esc.WriteRune(r)
 	}
-	want, err := ref.ParsePattern(c.Pre + esc.String() + c.Post)
+	want, err := ref.ParsePattern(strings.Join(c.PreVars, "") + c.Pre + esc.String() + c.Post)
 	if err != nil {
 		return nil // not a well-formed pattern (or beyond the reference): nothing to compare
 	}
 	env := interp.NewExecEnv("sh")
 	env.Opts |= interp.NoGlob
+	for i, v := range c.PreVars {
+		env.Set(fmt.Sprintf("c15v%d", i), v)
+	}
 	var got []string
 	var gerr error
 	if e := guard(func() error { got, gerr = env.Expand(sc.Args[1], interp.Pattern); return nil }); e != nil {
@@ -428,7 +440,8 @@ func checkC15Embedded(c c15Embedded) error {
 	if gerr != nil || len(got) != 1 {
 		return fmt.Errorf("Expand(%s, Pattern) = %q, %v; want one pattern", src[2:], got, gerr)
 	}
-	subjects := []string{"", "a", "z", "m", "x", "-", "!", "^", "]", "[", "\\", "*", "?", c.S, "a" + c.S, c.S + "z", "a" + c.S + "z", "am", "b"}
+	subjects := []string{"", "a", "z", "m", "x", "-", "!", "^", "]", "[", "\\", "*", "?", c.S, "a" + c.S, c.S + "z", "a" + c.S + "z", "am", "b",
+		":", "=", ".", "a]", ":]", "=]", ".]", "[]", "a:]", "[a]", "[:alpha:]", "\\" + c.S, "\\\\" + c.S, "\\xyz", "\\\\xyz", "a\\" + c.S, "\\a" + c.S}
 	for _, r := range c.S {
 		subjects = append(subjects, string(r), "a"+string(r), string(r)+"z")
 	}
@@ -610,10 +623,12 @@ func TestC15(t *testing.T) {
 
 	// quoted text inside unquoted pattern contexts
 	{
-		ctxs := [][2]string{{"[a", "z]"}, {"[", "]"}, {"[!", "x]"}, {"[", "a]"}, {"[a", "]"}, {"*", "*"}, {"?", ""}, {"", "*"}, {"[a-", "]"}, {"[", "-z]"}, {"a", "z"}, {"[[:alpha:]", "]"}}
+		ctxs := [][2]string{{"[a", "z]"}, {"[", "]"}, {"[!", "x]"}, {"[", "a]"}, {"[a", "]"}, {"*", "*"}, {"?", ""}, {"", "*"}, {"[a-", "]"}, {"[", "-z]"}, {"a", "z"}, {"[[:alpha:]", "]"},
+			// the quoted text where the opener or the closer of a class, an equivalence class or a collating symbol would stand
+			{"[[", "alpha:]]"}, {"[[:alpha", "]]"}, {"[[", "a=]]"}, {"[[=a", "]]"}, {"[[", "a.]]"}, {"[[.a", "]]"}, {"[", "alpha:]"}, {"[[", "]"}}
 		k := 0
 		for n := 1; n <= 2; n++ {
-			words([]string{"-", "!", "^", "]", "[", `\`, "*", "?", "a", "m", ".", ":"}, n, func(q string) {
+			words([]string{"-", "!", "^", "]", "[", `\`, "*", "?", "a", "m", ".", ":", "="}, n, func(q string) {
 				for _, ctx := range ctxs {
 					for _, how := range []string{"single", "double", "backslash"} {
 						k++
@@ -630,6 +645,39 @@ func TestC15(t *testing.T) {
 				}
 			})
 		}
+		// unquoted backslashes out of expansions in front of the quoted text
+		var pre []string
+		var recPre func(depth int)
+		recPre = func(depth int) {
+			if len(pre) > 0 {
+				all := strings.Join(pre, "")
+				if (len(all)-len(strings.TrimRight(all, `\`)))%2 == 0 && strings.Contains(all, `\`) {
+					for _, q := range []string{"*", "?", "[", "a", `\`, "]", "*a"} {
+						for _, how := range []string{"single", "double", "backslash"} {
+							k++
+							if k%nsh != sh {
+								continue
+							}
+							c := c15Embedded{PreVars: append([]string{}, pre...), S: q, Quote: how, Post: []string{"", "*", "z"}[k%3]}
+							if err := checkC15Embedded(c); err != nil {
+								fail(t, "C15", "embedded", c, "%v", err)
+							}
+							st.EvalN(1, 1)
+							st.Class("quoted_text_behind_backslashes_out_of_expansions")
+						}
+					}
+				}
+			}
+			if depth == 3 {
+				return
+			}
+			for _, v := range []string{`\`, `\\`, "a", `a\`, `\a`, "*"} {
+				pre = append(pre, v)
+				recPre(depth + 1)
+				pre = pre[:len(pre)-1]
+			}
+		}
+		recPre(0)
 		st.Note("quoted text inside unquoted pattern contexts: every string of <= 2 symbols over {- ! ^ ] [ \\ * ? a m . :} x 3 quotings x %d contexts (bracket expressions, ranges, negation, wildcards), compared with the reference matcher on the pattern with the quoted part escaped", len(ctxs))
 	}
 
